@@ -56,6 +56,9 @@ def generate(rng, tier="quick"):
             ops.append({"op": "aggregate", "name": rng.pick([x for x in ("rollup", "agg 1", "total", "r2", "r3", "r4") if x not in used_names])})
         else:
             ops.append({"op": "save", "write_data": rng.chance(0.5), "write_axes": rng.chance(0.6), "include": gen_filter(), "exclude": gen_filter()})
+    if rng.chance(0.3):
+        # another store in the same process, with its own axis names, somewhere in the history
+        ops.insert(rng.randint(0, len(ops)), {"op": "other_store", "axes": {"t": "timestamp", "z": "depth", "y": "northing", "x": "easting"}})
     saves = [o for o in ops if o["op"] == "save"]
     if saves and rng.chance(0.35):
         ops.append(copy.deepcopy(rng.pick(saves)))  # the same save again, later in the history
@@ -166,6 +169,16 @@ def execute(scn):
     for op in scn["ops"]:
         stats["ops"] += 1
         events.append(("OP", op["op"], digest(op)))
+        if op["op"] == "other_store":
+            try:
+                other = PandasStore(iter(list(seen)), axes=dict(op["axes"]))
+                odf = other.save(write_axes=True)
+                bump("other_store_with_custom_axes")
+                if a["time"] is not None and order and n > 0 and any(len(model[k]["flags"]) for k in order) and "timestamp" not in odf.columns:
+                    V.append(violation(PROP, "e", "save", "custom-axis-name-ignored", f"columns {list(odf.columns)}"))
+            except Exception as e:  # noqa: BLE001
+                V.append(violation(PROP, "a", "other_store", exc_signature(e), f"{e!r}"))
+            continue
         if op["op"] == "aggregate":
             try:
                 if not order and not rollups:
